@@ -21,6 +21,7 @@ import (
 	"fmt"
 	"io"
 	"math/rand"
+	"strings"
 	"sync"
 	"time"
 
@@ -122,9 +123,16 @@ func init() {
 			for _, c := range []string{"ping", "pub1", "sub", "unsub"} {
 				emit("blocked " + c)
 			}
+			// Handle between an inbound QoS 2 PUBLISH and its PUBREL: the message is handed over at PUBREL time, to the handler
+			// registered THEN (base client directly, and through RetryClient.Handle; with and without a handler at PUBLISH time)
+			for _, v := range []string{"base first", "base none", "retry first", "retry none"} {
+				emit("q2swap " + v)
+			}
+			emit("wlate pubrel")
 			emit("wblock close")
 			emit("wblock retry")
 			emit("wstall pub")
+			emit("wstall giveup")
 		},
 		exec: func(f []string) Result {
 			r := Result{Out: "", Tags: []string{"nontrivial", f[0] + "/" + f[1]}}
@@ -132,6 +140,95 @@ func init() {
 				r.Props = append(r.Props, viol(prop, key, "%s %s: %s", f[0], f[1], fmt.Sprintf(format, a...)))
 			}
 			switch f[0] {
+			case "q2swap":
+				tr := newRecTransport()
+				c := &mqtt.BaseClient{Transport: tr}
+				var mu sync.Mutex
+				var got []string
+				mk := func(name string) mqtt.Handler {
+					return mqtt.HandlerFunc(func(m *mqtt.Message) {
+						mu.Lock()
+						got = append(got, name+":"+m.Topic)
+						mu.Unlock()
+					})
+				}
+				var rc *mqtt.RetryClient
+				handle := func(h mqtt.Handler) { c.Handle(h) }
+				if f[1] == "retry" {
+					rc = &mqtt.RetryClient{}
+					handle = func(h mqtt.Handler) { rc.Handle(h) }
+				}
+				if f[2] == "first" {
+					handle(mk("first"))
+				}
+				if rc != nil {
+					rc.SetClient(context.Background(), c)
+					fed := false
+					tr.mu.Lock()
+					tr.onWrite = func(p []byte) {
+						tr.mu.Lock()
+						first := !fed && len(p) > 0 && p[0] == 0x10
+						if first {
+							fed = true
+						}
+						tr.mu.Unlock()
+						if first {
+							tr.feed(specConnAck(false, 0))
+						}
+					}
+					tr.mu.Unlock()
+					cctx, ccancel := context.WithTimeout(context.Background(), 2*time.Second)
+					_, err := rc.Connect(cctx, "cid")
+					ccancel()
+					if err != nil {
+						bad("C04", "setup", "connect: %v", err)
+						return r
+					}
+					tr.mu.Lock()
+					tr.onWrite = nil
+					tr.out, tr.writes = nil, nil
+					tr.mu.Unlock()
+				} else if _, err := connectRec(c, tr); err != nil {
+					bad("C04", "setup", "connect: %v", err)
+					return r
+				}
+				waitWrites := func(n int) bool {
+					deadline := time.Now().Add(2 * time.Second)
+					for len(tr.writeList()) < n {
+						if time.Now().After(deadline) {
+							return false
+						}
+						time.Sleep(100 * time.Microsecond)
+					}
+					return true
+				}
+				tr.feed(specPublish("held", []byte{9}, 2, false, false, 21))
+				if !waitWrites(1) {
+					bad("C04", "qos2-no-pubrec", "no PUBREC for an inbound QoS 2 PUBLISH")
+					tr.Close()
+					return r
+				}
+				mu.Lock()
+				early := len(got)
+				mu.Unlock()
+				if early > 0 {
+					bad("C04", "qos2-handed-over-before-pubrel", "the QoS 2 message reached a handler before PUBREL: %v", got)
+				}
+				handle(mk("second"))
+				tr.feed(specAck(0x62, 21))
+				if !waitWrites(2) {
+					bad("C04", "qos2-no-pubcomp", "no PUBCOMP for PUBREL")
+				}
+				time.Sleep(2 * time.Millisecond)
+				mu.Lock()
+				g := append([]string{}, got...)
+				mu.Unlock()
+				if len(g) != 1 || g[0] != "second:held" {
+					bad("C17", "handler-not-current-at-release", "Handle(second) returned before the PUBREL arrived, yet the released QoS 2 message went to %v (expected exactly [second:held])", g)
+					bad("C04", "qos2-release-handler", "a QoS 2 message released by PUBREL after Handle(second) was handed to %v", g)
+				}
+				tr.Close()
+				return r
 			case "swap", "reply":
 				qos := byte(atoi(f[1]))
 				tr := newRecTransport()
@@ -304,6 +401,15 @@ func init() {
 					return r
 				}
 				time.Sleep(80 * time.Millisecond) // the publisher's context has expired; its Write is still in progress
+				if f[1] == "giveup" {
+					// a second caller waits for the write lock and gives up (its context ends) while the first write is still
+					// stalled: whatever it does on its way out must not let a third caller into Transport.Write
+					gctx, gc := context.WithTimeout(context.Background(), 20*time.Millisecond)
+					gaveUp := make(chan struct{})
+					go func() { c.Ping(gctx); close(gaveUp) }()
+					waitCh(gaveUp, 300*time.Millisecond) // unchanged code: still waiting for the lock (a plain mutex), which is fine too
+					gc()
+				}
 				pingDone := make(chan error, 1)
 				go func() {
 					qctx, qc := context.WithTimeout(context.Background(), 2*time.Second)
@@ -315,7 +421,12 @@ func init() {
 					bad("C10", "concurrent-transport-write", "%d goroutines were inside Transport.Write at the same time: a second packet was started while a stalled write of the first was still in progress", n)
 				}
 				close(st.gate)
-				<-pubDone
+				select {
+				case <-pubDone:
+				case <-time.After(3 * time.Second):
+					bad("C10", "stalled-writer-never-returned", "the Publish whose Write had stalled did not return within 3 s after the transport accepted its packet (it cannot get out of the write lock)")
+					bad("C11", "call-never-returned", "Publish did not return although its context expired and its Write finished")
+				}
 				base.feed(specPacket(0xd0, nil))
 				select {
 				case <-pingDone:
@@ -323,6 +434,81 @@ func init() {
 				}
 				if n := st.maxInFlight(); n > 1 {
 					bad("C10", "concurrent-transport-write", "%d goroutines were inside Transport.Write at the same time", n)
+				}
+				base.Close()
+			case "wlate":
+				// a Transport.Write that looks at its argument late (a slow link): while the PUBREL of an outbound QoS 2 publish
+				// is inside Write, an inbound QoS 1 PUBLISH has to be acknowledged. Every packet must reach the wire as it was
+				// built: PUBREL with the publish's identifier, then exactly one PUBACK with the inbound identifier (C04, C10)
+				base := newRecTransport()
+				st := &stallTransport{recTransport: base, gate: make(chan struct{}), stalled: make(chan struct{})}
+				c := &mqtt.BaseClient{Transport: st}
+				c.Handle(mqtt.HandlerFunc(func(*mqtt.Message) {}))
+				errCh := make(chan error, 1)
+				go func() { _, err := c.Connect(context.Background(), "cid"); errCh <- err }()
+				waitN := func(n int) bool {
+					deadline := time.Now().Add(2 * time.Second)
+					for len(base.writeList()) < n {
+						if time.Now().After(deadline) {
+							return false
+						}
+						time.Sleep(100 * time.Microsecond)
+					}
+					return true
+				}
+				if !waitN(1) {
+					bad("C10", "setup", "no CONNECT")
+					return r
+				}
+				base.feed(specConnAck(false, 0))
+				if err := <-errCh; err != nil {
+					bad("C10", "setup", "connect: %v", err)
+					return r
+				}
+				pubDone := make(chan error, 1)
+				go func() {
+					pctx, pc := context.WithTimeout(context.Background(), 3*time.Second)
+					defer pc()
+					pubDone <- c.Publish(pctx, &mqtt.Message{Topic: "out", QoS: mqtt.QoS2, Payload: []byte{1}})
+				}()
+				if !waitN(2) {
+					bad("C10", "setup", "no PUBLISH")
+					return r
+				}
+				pub, _, err := specDecode(base.writeList()[1])
+				if err != nil {
+					bad("C05", "setup", "PUBLISH does not decode: %v", err)
+					return r
+				}
+				st.arm()
+				base.feed(specAck(0x50, pub.ID))
+				if !waitCh(st.stalled, 3*time.Second) {
+					bad("C10", "setup", "the PUBREL write did not start")
+					return r
+				}
+				base.feed(specPublish("in", []byte{2}, 1, false, false, 7))
+				time.Sleep(3 * time.Millisecond) // the reader has built its PUBACK and waits for the write lock
+				close(st.gate)
+				if !waitN(4) {
+					bad("C04", "inbound-not-acknowledged", "no PUBACK for the inbound QoS 1 PUBLISH after the stalled PUBREL write finished (writes: %d)", len(base.writeList()))
+				}
+				base.feed(specAck(0x70, pub.ID))
+				select {
+				case <-pubDone:
+				case <-time.After(3 * time.Second):
+				}
+				var seen []string
+				for _, w := range base.writeList()[2:] {
+					if p, _, err := specDecode(w); err == nil {
+						seen = append(seen, fmt.Sprintf("%x:%d", p.Type, p.ID))
+					} else {
+						seen = append(seen, "undecodable")
+					}
+				}
+				want := []string{fmt.Sprintf("60:%d", pub.ID), "40:7"}
+				if strings.Join(seen, ",") != strings.Join(want, ",") {
+					bad("C04", "ack-packets-corrupted", "PUBREL %d stalled inside Transport.Write while an inbound QoS 1 PUBLISH (id 7) was acknowledged: the wire shows %v, expected %v (exactly one PUBACK with the inbound identifier, the PUBREL intact)", pub.ID, seen, want)
+					bad("C10", "packet-changed-during-write", "a packet changed while it was inside Transport.Write: wire %v, expected %v", seen, want)
 				}
 				base.Close()
 			case "wblock":
